@@ -452,6 +452,11 @@ def run(ck: Checker) -> None:
     ck.guard("R-ORDER-KEY", lambda: T.r_gen_stateless(ck))
     from .c11 import r_child_kind
     ck.guard("R-CHILD-KIND", lambda: r_child_kind(ck))
+    from . import state_rules as S5
+    ck.guard("R-GATHER", lambda: S5.r_iter_once(ck, "R-GATHER", ("pyoak.node",)))
+    ck.guard("R-WORKLIST", lambda: S5.r_mutable_default(ck, "R-WORKLIST", ("pyoak.node",)))
+    from . import state_rules as S_
+    ck.guard("R-WORKLIST", lambda: S_.r_unstable_key(ck, "R-WORKLIST", [(NODE, "ASTNode.dfs"), (NODE, "ASTNode.bfs"), (NODE, "ASTNode.gather")], "a traversal enumerates the tree as it is now"))
     ck.require_count("R-WORKLIST", 3 + 3 + 6 + 2)
     ck.require_count("R-CTRLDEP", 3)
     ck.require_count("R-GATHER", 4)
